@@ -59,6 +59,7 @@ theorem stepApi_inv {st st' : St} {c : Api} (hi : Inv st) (hd : docRespectful st
   | psAdd g p hh => exact inv_psAdd hi hd h
   | psHas g p hh => exact inv_outs hi (.inr (.inr ⟨g, p, hh, rfl⟩)) h
   | psRemove g p hh => exact inv_psRemove hi h
+  | psAddAllSteps g p hs => exact inv_psAddAllSteps hi hd h
   | psList g perm => exact inv_psList hi h
   | walkBegin v => exact inv_walkBegin hi h
   | walkNext w => exact inv_walkNext hi h
@@ -110,6 +111,14 @@ theorem receivers_in_order {st : St} {op : HeapOp} (hi : Inv st) (hd : docRespec
       · rfl
     case psRemove g p hh =>
       simp only [respectful]
+      split
+      · rename_i a hg
+        obtain ⟨kvs, hm⟩ := go_ok hi hg
+        exact setOwned_of_inv hi.heap hm
+      · rfl
+    case psAddAllSteps g p hz =>
+      simp only [respectful, Bool.and_eq_true]
+      refine ⟨?_, hd⟩
       split
       · rename_i a hg
         obtain ⟨kvs, hm⟩ := go_ok hi hg
